@@ -211,6 +211,14 @@ func (lg *locGen) op() map[string]interface{} {
 			rule["schedule"] = pick(r, "+1h", "0 0 * * * * *").(string)
 			delete(rule, "when")
 		}
+		if (lg.profile == "dispatch" || lg.profile == "lifecycle") && r.Intn(25) == 0 {
+			// an ordinary event rule that also carries an EMPTY schedule (or, rarely, a null one): no
+			// schedule to the rule parser, so it must be in the rule index and fire like any other (D66:
+			// the indexed state used to leave every rule with a "schedule" member out of the index)
+			if _, have := rule["when"]; have {
+				rule["schedule"] = pick(r, "", "", "", nil)
+			}
+		}
 		if lg.profile == "cascade" && r.Intn(2) == 0 {
 			rule["deleteWith"] = []interface{}{lg.ids[r.Intn(len(lg.ids))]}
 			if r.Intn(3) == 0 {
@@ -973,7 +981,7 @@ func execLocOp(w *locWorld, o map[string]interface{}) {
 					}
 				}
 			}
-			if _, scheduled := rm["schedule"]; scheduled {
+			if sch := rm["schedule"]; sch != nil && sch != "" {
 				same = true // a scheduled rule is not indexed: nothing to add and undo
 			}
 			if !same {
